@@ -67,6 +67,7 @@ type Explorer struct {
 	locked  int // decisions [0,locked) belong to the work item's prefix and are never backtracked
 	pending []pendingAssert // assertions made since the last decision, decided together in one query
 	flushing bool
+	usedPar  bool // the current path ran two engine threads (nd.Par)
 	onFlush func(p []pendingAssert)
 	inconclusive map[string]int
 	Skipped int
@@ -85,6 +86,7 @@ func NewExplorer(s *solver) *Explorer { return &Explorer{S: s, fresh: map[string
 
 func (x *Explorer) startPath() {
 	x.pending = nil
+	x.usedPar = false
 	x.pos = 0
 	x.fresh = map[string]int{}
 	x.ndVars = x.ndVars[:0]
